@@ -3,6 +3,7 @@ package main
 import (
 	"fmt"
 	"math/big"
+	"regexp"
 	"os"
 	"path/filepath"
 	"strings"
@@ -426,6 +427,46 @@ func writeBatch(repoRoot, srcRoot, verifRoot string, pinned map[string]string, c
 		pkg := ""
 		fmt.Sscanf(after(string(src), "\npackage "), "%s", &pkg)
 		stale += installText(filepath.Join(repoRoot, rel, "zz_verif_contracts_batch.go"), strings.ReplaceAll(string(b), "PKG", pkg), check)
+	}
+	return stale
+}
+
+// ---------------- 6-over-3 towers (bw6) ----------------
+
+type tower63Cfg struct {
+	Rel string // ecc/bw6-761/internal/fptower
+	Fp  string // ecc/bw6-761/fp
+	NR  string
+}
+
+// documented cubic non-residues of the bw6 base fields (fp/bw6_utils.go: MulByNonResidue)
+var towers63 = []tower63Cfg{
+	{Rel: "ecc/bw6-761/internal/fptower", Fp: "ecc/bw6-761/fp", NR: "(-4)"},
+	{Rel: "ecc/bw6-633/internal/fptower", Fp: "ecc/bw6-633/fp", NR: "2"},
+}
+
+var reRecv12 = regexp.MustCompile(`\nfunc \((\w+) \*E3\) MulBy12\(`)
+
+func writeTowers63(repoRoot, srcRoot, verifRoot string, check bool) int {
+	b, err1 := os.ReadFile(filepath.Join(verifRoot, "contracts", "tower", "fq6over3.go.tmpl"))
+	nb, err2 := os.ReadFile(filepath.Join(verifRoot, "contracts", "tower", "fp_nonresidue.go.tmpl"))
+	if err1 != nil || err2 != nil {
+		return 0
+	}
+	stale := 0
+	for _, t := range towers63 {
+		src, err := os.ReadFile(filepath.Join(srcRoot, t.Rel, "e3.go"))
+		if err != nil {
+			continue
+		}
+		recv := "z"
+		if m := reRecv12.FindStringSubmatch(string(src)); m != nil {
+			recv = m[1]
+		}
+		s := strings.ReplaceAll(string(b), "R12", recv)
+		s = strings.ReplaceAll(s, "NRVAL", t.NR)
+		stale += installText(filepath.Join(repoRoot, t.Rel, "zz_verif_contracts_tower.go"), s, check)
+		stale += installText(filepath.Join(repoRoot, t.Fp, "zz_verif_contracts_nr.go"), strings.ReplaceAll(string(nb), "NRVAL", t.NR), check)
 	}
 	return stale
 }
